@@ -380,7 +380,7 @@ fn jt_name(jt: JoinType) -> &'static str {
 }
 
 pub fn run(ctx: &mut Ctx) {
-    let total = ctx.q(12000, 200000);
+    let total = ctx.q(8000, 200000);
     ctx.cases("plain", total, |ctx, idx| {
         let jt = JTS[(idx % 4) as usize];
         let masked = (idx / 4) % 2 == 1;
@@ -430,7 +430,7 @@ pub fn run(ctx: &mut Ctx) {
         }
     });
     // compiled joins (seconds each): single evaluator and three parties
-    let total = ctx.q(64, 1200);
+    let total = ctx.q(48, 1200);
     ctx.cases("compiled", total, |ctx, idx| {
         let jt = JTS[(idx % 4) as usize];
         let masked = (idx / 4) % 3 == 2;
